@@ -871,6 +871,11 @@ def auto_members(spec):
         for n in range(0, AUTO_MAXLEN + 1):
             out.update(prof.avoiders(data, n))
         return out
+    if kind == "mesh1":
+        p, S = data
+        tab = short_table()[tuple(p)]
+        hm = cellmask(S, len(p))
+        return {t for t in R.perms_upto(AUTO_MAXLEN) if not any((m & hm) == 0 for m in tab[t])}
     if kind == "pair01":
         tab = short_table()[(0, 1)]
         a, b = cellmask(data[0], 2), cellmask(data[1], 2)
@@ -1068,7 +1073,7 @@ def check_auto(part, spec, form):
     try:
         sg = call_auto(form, members)
     except NoAnswer as exc:
-        if spec[0] == "pair01":
+        if spec[0] in ("pair01", "mesh1"):
             # not one of the listed predicates that are known to be answered: the property only
             # speaks about returned descriptions
             part.bump("auto_pairs_without_answer")
@@ -1093,7 +1098,7 @@ def check_auto(part, spec, form):
         for t in R.perms(n):
             inside = t in members
             nbad += 0 if inside else 1
-            if (describes_short(N, t) if spec[0] == "pair01" else describes(N, t)) != inside:
+            if (describes_short(N, t) if spec[0] in ("pair01", "mesh1") else describes(N, t)) != inside:
                 part.violation("auto", case, {"description": show(N), "perm": t,
                                               "has_property": inside})
                 return N
@@ -1111,6 +1116,138 @@ def shard_auto(shard):
     if N is not None:
         part.sample({"auto_bisc": spec, "form": form, "description": show(N)}, cap=1)
     return part, (None if N is None else show(N))
+
+
+# ---- the driver's retry path ("A bad basis was chosen"): properties "avoid ONE dense mesh pattern
+# of length 3".  The cheap stages (bisc, run_clean_up on the tree under test; sufficiency by the
+# tabulated reference) decide exhaustively which properties have a first clean-up basis that covers
+# the bad permutations up to the learning length n but not up to 8; those are run end to end.
+
+DENSE_PATT = (2, 0, 1)
+DENSE_CORE = ((1, 2), (2, 1), (3, 1))
+
+
+def dense_specs(quick):
+    """thorough: every shading of 201 with at least 11 of the 16 cells (6 885 properties);
+    quick: the sub-family of those with exactly 11 cells that leave the cells DENSE_CORE unshaded
+    (78 properties) - a fixed sub-family that is known to reach the retry path on the unchanged
+    tree (scan of all shadings with >= 9 cells of 012 and 201: the properties whose first basis is
+    insufficient up to 8 AND avoided by every good permutation - so that only the re-check of the
+    basis stands between it and the answer - are 70 / 23 / 2 of the shadings of 201 with 9 / 10 / 11
+    cells, none with more, none of 012; both of the 11-cell ones are in the quick family)."""
+    grid = R.all_cells(3)
+    out = []
+    for r in range(0, 6):
+        for free in itertools.combinations(grid, r):
+            if quick and not (r == 5 and all(c in free for c in DENSE_CORE)):
+                continue
+            out.append(("mesh1", (DENSE_PATT, tuple(c for c in grid if c not in free))))
+    return out
+
+
+def ref_suffices_bad(N, bad, L):
+    """Every bad permutation of length <= L contains a pattern of N (patterns of length <= 3:
+    tabulated occupied cells; longer ones by the definition)."""
+    tab = short_table()
+    short = [(p, cellmask(H, j)) for j, lvl in N.items() if j <= SHORT_K
+             for p, hs in lvl.items() for H in hs]
+    rest = {j: lvl for j, lvl in N.items() if j > SHORT_K and lvl}
+    for k in range(L + 1):
+        for t in bad[k]:
+            if any(any((m & hm) == 0 for m in tab[p][t]) for p, hm in short if len(p) <= k):
+                continue
+            if rest and not describes(rest, t):
+                continue
+            return False
+    return True
+
+
+def retry_probe(part, spec):
+    """Follows the driver's schedule (m, n) = (2, 4), (3, 5), (4, 6) with the library's bisc and
+    run_clean_up and the reference for 'suffices up to 8'.  Returns 'retry' when the first basis of
+    the clean-up is insufficient up to 8, 'ok' when it suffices, None when no round gets there.
+    Also holds patterns_suffice_for_bad to the reference verdict on that basis at n and at 8."""
+    Perm, _, B, S = _lib()
+    members = auto_members(spec)
+    good = {k: [] for k in range(AUTO_MAXLEN + 1)}
+    bad = {k: [] for k in range(AUTO_MAXLEN + 1)}
+    for t in R.perms_upto(AUTO_MAXLEN):
+        (good if t in members else bad)[len(t)].append(t)
+    A = {k: [Perm(t) for t in good[k]] for k in good}
+    Bd = {k: [Perm(t) for t in bad[k]] for k in bad}
+    case = {"predicate": spec}
+    n, m = 4, 2
+    try:
+        with quiet():
+            while n <= AUTO_MAX_N:
+                SG = B.bisc(A, m, n)
+                if SG != {} and ref_suffices_bad(norm(SG), bad, AUTO_MAXLEN):
+                    break
+                n += 1
+                m += 1
+            else:
+                return None
+            ib = len(SG[min(SG)])
+            basis = None
+            while ib <= 40:
+                bases, d = S.run_clean_up(SG, Bd, n, limit_monitors=ib)
+                if bases:
+                    basis = bases[0]
+                    break
+                ib += 1
+            if basis is None:
+                return None
+            sg = S.to_sg_format(basis, d)
+            sgN = norm(sg)
+            verdicts = {}
+            for L in (n, AUTO_MAXLEN):
+                exp = ref_suffices_bad(sgN, bad, L)
+                verdicts[L] = exp
+                if L == AUTO_MAXLEN and exp:
+                    continue            # the expensive positive scan of S<=8 is left to the driver
+                for stop in (True, False):
+                    val, wit = S.patterns_suffice_for_bad(sg, L, Bd, stop_on_failure=stop)
+                    wit = [tuple(w) for w in wit]
+                    okw = all(len(w) <= L and w not in members and describes_short(sgN, w)
+                              for w in wit)
+                    part.bump("driver_suffice_calls")
+                    if bool(val) != exp or not okw or (not exp and not wit):
+                        part.violation("suffice_driver", dict(case, L=L, stop_on_failure=stop),
+                                       {"basis": show(sgN), "expected": exp, "got": [val, wit]})
+    except Malformed as exc:
+        part.violation("malformed", case, {"problem": str(exc)})
+        return None
+    except Exception as exc:  # noqa
+        part.violation("exception", case, {"call": "bisc / run_clean_up on the driver's schedule",
+                                           "exception": repr(exc)})
+        return None
+    if verdicts[AUTO_MAXLEN]:
+        return "ok"
+    # does every good permutation up to 8 avoid that basis?  (otherwise the driver's later check on
+    # the good permutations sends it back to learning anyway)
+    sound = all(describes_short(sgN, t) for k in good for t in good[k])
+    return "retry" if sound else "retry_then_unsound"
+
+
+_DENSE = []
+
+
+def shard_retry(shard):
+    lo, hi = shard
+    part = Partial()
+    for spec in _DENSE[lo:hi]:
+        st = retry_probe(part, spec)
+        part.bump("retry_family_" + str(st))
+        nt = 0
+        if st in ("retry", "retry_then_unsound"):
+            N = check_auto(part, spec, "predicate")
+            if N is not None:
+                nt = 1
+                part.bump("retry_family_answered_end_to_end")
+                part.sample({"auto_bisc": spec, "first_basis": "insufficient up to 8",
+                             "description": show(N)}, cap=1)
+        part.add(1, nt)
+    return part, None
 
 
 _PAIRS = []
@@ -1179,8 +1316,10 @@ def run(ctx, only=None):
         _profiles()
         plan = auto_plan(quick)
         jobs += [("auto", "shard_auto", sh) for sh in plan]
+        short_table(ctx)
+        _DENSE[:] = dense_specs(quick)
+        jobs += [("auto", "shard_retry", sh) for sh in chunks(len(_DENSE), 8 if quick else 40)]
         if not quick:
-            short_table(ctx)
             _PAIRS[:] = pair01_specs(4)
             jobs += [("auto", "shard_auto_pairs", sh) for sh in chunks(len(_PAIRS), 4)]
     if want("n4"):
@@ -1281,6 +1420,22 @@ def run(ctx, only=None):
         ctx.bounds["auto"] = {"inputs": [[r[0], r[1]] for r in auto_res],
                               "checked_on": "every permutation of length <= 8 (46 234)",
                               "answers": answers}
+        reached = ctx.counters.get("retry_family_retry", 0)
+        ctx.bounds["auto"]["retry_path_family"] = (
+            "avoid ONE mesh pattern (201,S), %s: %d properties; filtered exhaustively "
+            "by bisc + run_clean_up on the driver's schedule and the reference verdict up to 8; "
+            "first clean-up basis insufficient up to 8 (= the driver's retry path) for %d of them "
+            "(%d of these bases are avoided by every good permutation up to 8, so only the re-check "
+            "of the basis protects the answer); all %d are run through auto_bisc and compared with "
+            "the predicate on S<=8 (%d answered); patterns_suffice_for_bad held to the reference on "
+            "every first basis at n (and at 8 when the verdict is negative)"
+            % ("exactly 11 cells shaded, (1,2),(2,1),(3,1) unshaded" if quick
+               else "at least 11 of 16 cells shaded",
+               len(_DENSE), reached + ctx.counters.get("retry_family_retry_then_unsound", 0), reached,
+               reached + ctx.counters.get("retry_family_retry_then_unsound", 0),
+               ctx.counters.get("retry_family_answered_end_to_end", 0)))
+        if not reached:
+            ctx.cap("retry-path family: no property reached the driver's retry path (vacuous)")
         if not quick:
             ctx.bounds["auto"]["pair_predicates"] = (
                 "avoid (01,S1) and (01,S2): all unordered pairs of distinct shadings with exactly 4 "
@@ -1402,12 +1557,17 @@ def replay(ctx, rec):
             priv_maximal(ctx, tuple(case["text"]), tuple(case["occ"]))
         else:
             raise ValueError(fn)
+    elif sub == "suffice_driver":
+        kind, data = case["predicate"]
+        retry_probe(_Only(ctx, sub), (kind, (tuple(data[0]), tuple(tuple(c) for c in data[1]))))
     elif sub in ("auto", "auto_no_answer"):
         kind, data = case["predicate"]
         if kind == "av":
             data = tuple(tuple(p) for p in data)
         if kind == "pair01":
             data = tuple(tuple(tuple(c) for c in sh) for sh in data)
+        if kind == "mesh1":
+            data = (tuple(data[0]), tuple(tuple(c) for c in data[1]))
         check_auto(_Only(ctx, sub), (kind, data), case["form"])
     else:
         raise ValueError("unknown sub-check %r" % sub)
